@@ -179,12 +179,23 @@ class Run(object):
             self.sock = s
         return self.sock
 
-    def peer_send(self, frames_with_bytes):
-        recs = [r for r, _ in frames_with_bytes]
-        for _, b in frames_with_bytes:
-            self.transit += b
+    def peer_send(self, frames_with_bytes, limit=None):
+        """The peer writes these PDUs back to back; with limit, only the first `limit` bytes are ever
+        written (the peer dies in the middle): the frames that have started are declared, the last one
+        never completes."""
+        recs, blob = [], b''
+        for r, b in frames_with_bytes:
+            if limit is not None and len(blob) >= limit:
+                break
+            if r is not None:
+                recs.append(r)
+            blob += b
+        if limit is not None:
+            blob = blob[:limit]
+        self.transit += blob
         self.frames_sent.extend(recs)
-        self.trace.append({'ev': 'PeerSend', 'frames': recs})
+        self.trace.append({'ev': 'PeerSend', 'frames': recs, 'n': len(blob)})
+        return len(blob)
 
     def arrive(self, n=None):
         if n is None:
@@ -347,6 +358,9 @@ class Run(object):
         if k == 'AB':
             return {'k': k, 'f': [obj.source, obj.reason_diag]}
         return {'k': k, 'f': []}
+
+    def end(self, home):
+        self.trace.append({'ev': 'End', 'home': bool(home)})
 
     # -- helpers for scripts
     def state(self):
